@@ -3,7 +3,7 @@
    theorems are about, with the third-party parsers and the ideal signature instantiated from the case. *)
 From Coq Require Import List NArith String Ascii Bool.
 Import ListNotations.
-From VF Require Export common.Base64 C08.Types gen.Gen_C08 C08.Model.
+From VF Require Export common.Base64 C08.Types gen.Gen_C08 C08.Model C08.HeaderJson.
 Local Open Scope N_scope.
 
 Inductive entry := EJws | EJwt (ignore_claims : bool).
@@ -14,7 +14,9 @@ Record case := {
   c_cfg : vcfg;
   c_det : option string;                       (* detached payload option *)
   c_tok : string;                              (* the token as received *)
-  c_hdr : option hview;                        (* what the JSON decoder made of the decoded header bytes *)
+  c_canon : string;                            (* base64url of what json.Marshal gave back for the decoded header map
+                                                  (read by the DefaultSigningInputVerifier configuration only; the model's
+                                                  own marshal must agree whenever the header carries no number) *)
   c_docs : list (string * list vmeth);         (* the DID documents the VDR serves (the one the kid names) *)
   c_sig0 : string;                             (* a signature segment whose meaning the harness knows ... *)
   c_sigv0 : sigv;                              (* ... and that meaning *)
@@ -35,6 +37,21 @@ Definition case_sig_meaning (c : case) (bs : list N) : sigv :=
          end
   end.
 
+(* the header bytes are decoded by the MODEL (hdr_json: scanner, unquote, duplicate members, number range) *)
+Definition case_canon (c : case) : list N :=
+  match b64dec (chars (c_canon c)) with Some b => b | None => [] end.
+
+(* the model's json.Marshal of the decoded header (None when it carries a number or is not an object) *)
+Definition model_canon (tok : list N) : option (list N) :=
+  match split_dot tok with
+  | [hseg; _; _] =>
+      match b64dec hseg with
+      | Some hb => match parse_json hb with Some (VObj m) => marshal (VObj m) | _ => None end
+      | None => None
+      end
+  | _ => None
+  end.
+
 Definition stage_eqb (a b : stage) : bool :=
   match a, b with
   | StSplit, StSplit | StHdr, StHdr | StPay, StPay | StSigIn, StSigIn | StSigDec, StSigDec
@@ -43,7 +60,7 @@ Definition stage_eqb (a b : stage) : bool :=
   end.
 
 Definition run_case (v : variant) (c : case) : out :=
-  let ph := fun _ : list N => c_hdr c in
+  let ph := hdr_json (fun _ => case_canon c) in
   let rs := resolve_docs (c_docs c) in
   let sm := case_sig_meaning c in
   let det := option_map chars (c_det c) in
@@ -53,12 +70,18 @@ Definition run_case (v : variant) (c : case) : out :=
   end.
 
 Definition check_case (c : case) : bool :=
-  match run_case Fixed c, c_obs c with
-  | Accept _ p, OAccept p' => leqb p (chars p')
-  | Reject s, OReject s' => stage_eqb s s'
-  | Crash, OCrash => true
-  | _, _ => false
-  end.
+  (match run_case Fixed c, c_obs c with
+   | Accept _ p, OAccept p' => leqb p (chars p')
+   | Reject s, OReject s' => stage_eqb s s'
+   | Crash, OCrash => true
+   | _, _ => false
+   end)
+  && (* re-marshalled header: the model's marshal equals the real encoder's output; the harness sends "" when the
+        real decoder rejected the header, and then the model must not have decoded an object either *)
+     (match model_canon (chars (c_tok c)) with
+      | Some m => leqb m (case_canon c)
+      | None => true
+      end).
 
 Fixpoint mismatches_from (i : nat) (cs : list case) : list nat :=
   match cs with
